@@ -1017,9 +1017,13 @@ def cases_C18(rng, tier):
         mn, mx = G.list_depth(t)
         extra = []
 
+        hasrec = G.has_kind(t, 'rec')
+
         def axis(allow_zero=True):
             r = rng.random()
-            if r < 0.4:
+            if r < 0.4 or hasrec:
+                # through records a negative axis is resolved field by field (possibly to the outermost level inside one
+                # field only): what the operation then means across partitions is not specified
                 return rng.randint(0 if allow_zero else 1, max(mx - 1, 0 if allow_zero else 1))
             if r < 0.9:
                 return -rng.randint(1, mx)
@@ -1145,6 +1149,26 @@ def signature(prop, c, impl, verdict):
     f = tg.get('func', c.op)
     if tg.get('negaxis_rec'):
         return 'negaxis-record-under-list'
+    if f == 'part:reduce' and tg.get('reducer') in ('argmin', 'argmax') and tg.get('axis') is not None and c.meta.get('types'):
+        import props.c03 as c03
+        t = c.meta['types'][0]
+        na = c03._negaxis(t, tg['axis'])
+        mn, mx = G.list_depth(t)
+        if na >= 3 or (na >= 2 and c03._opt_list_below(t, 0, mx - na)):
+            return 'argminmax-nonlocal-positions'
+    if f in ('part:sort', 'part:argsort') and c.meta.get('types'):
+        # defects of the eager sort that show differently in each partition (registered under C06)
+        import props.c06 as c06
+        t = c.meta['types'][0]
+        mn, mx = G.list_depth(t)
+        ax = tg.get('axis')
+        innermost = ax is not None and (ax == -1 or ax == mx - 1)
+        if f == 'part:argsort' and not innermost:
+            return 'argsort-nonlocal-positions'
+        if f == 'part:argsort' and c06._opt_of_str(t):
+            return 'argsort-option-strings-positions'
+        if c06._optlist_under_list(t) or (not innermost and c06._optlist_anywhere(t)):
+            return 'sort-option-lists-above-axis'
     msg = unhex(impl)
     if impl.startswith('err') and 'cannot broadcast' in msg and ' of length ' in msg:
         if any(reg_untrimmed(l) for l in layouts_of(c)):
